@@ -20,7 +20,7 @@
 #ifndef DS
 #define DS 3
 #endif
-static size_t La, Lb;                       /* output lengths of the two data sources (symbolic, fixed per run) */
+static size_t La, Lb; static int exp_calls_decl_dummy;                       /* output lengths of the two data sources (symbolic, fixed per run) */
 static int ds_bad_size, ds_calls, arg_bad; static const char *exp_arg[4]; static int exp_arg_len[4]; static int exp_calls;
 static int known(const char *n){ return (n[0] == 'a' || n[0] == 'b' || n[0] == 'f') && n[1] == 0; }
 int snoopy_datasourceregistry_doesNameExist(char const * const n){ return known(n); }
@@ -36,33 +36,47 @@ int snoopy_datasourceregistry_callByName(char const * const n, char * const buf,
   for (size_t k = 0; k < 3; k++) if (k < L && w + 1 < sz) { buf[w++] = k == 0 ? (arg[0] ? arg[0] : (n[0] == 'a' ? 'A' : 'B')) : 'x'; }
   if (sz > 0) buf[w] = 0;
   return (int)L; }
-/* ---- reference ---- */
-static char E[FMT_MAX * 4 + 140]; static size_t el; static int fits_ds;
-static void put(const char *s){ for (size_t k = 0; s[k]; k++) E[el++] = s[k]; }
+/* ---- reference: ONE left-to-right pass with a concrete position counter (a small state machine), so that no loop bound
+   depends on symbolic data.  It does not build the expected string: it counts its length (el) and remembers the expected byte at
+   one ghost position gi chosen by the harness (wc) ---- */
+#define FLEN 24
+static size_t el, gi; static char wc; static int fits_ds;
+static void putc_(char c){ if (el == gi) wc = c; el++; }
+static void put(const char *s){ for (size_t k = 0; s[k]; k++) putc_(s[k]); }
 static void spec(const char *f){
-  size_t i = 0; el = 0; exp_calls = 0; fits_ds = 1;
-  for (;;) {
-    size_t t = i; while (f[t] && !(f[t] == '%' && f[t + 1] == '{')) t++;
-    for (size_t k = i; k < t; k++) E[el++] = f[k];                 /* literal text verbatim */
-    if (!f[t]) break;
-    size_t c = t; while (f[c] && f[c] != '}') c++;
-    if (!f[c]) { put("[ERROR: Closing data source tag ('}') not found.]"); break; }
-    size_t colon = t + 2; while (colon < c && f[colon] != ':') colon++;
-    size_t nl = colon - (t + 2);
-    const char *arg = colon < c ? f + colon + 1 : ""; int al = colon < c ? (int)(c - colon - 1) : 0;
-    if (!(nl == 1 && (f[t + 2] == 'a' || f[t + 2] == 'b' || f[t + 2] == 'f'))) { put("[ERROR: Data source '"); for (size_t k = t + 2; k < colon; k++) E[el++] = f[k]; put("' not found.]"); break; }
-    if (exp_calls < 4) { exp_arg[exp_calls] = arg; exp_arg_len[exp_calls] = al; } exp_calls++;
-    char nm = f[t + 2];
-    if (nm == 'f') { put("[ERROR: Data source 'f' failed with the following error message: 'E']"); if (DS < 1) fits_ds = 0; }
-    else { size_t L = nm == 'a' ? La : Lb; if (L > DS) fits_ds = 0; for (size_t k = 0; k < 3; k++) if (k < L) E[el++] = k == 0 ? (al > 0 && arg[0] ? arg[0] : (nm == 'a' ? 'A' : 'B')) : 'x'; }
-    i = c + 1;
-  }
-  E[el] = 0; }
+  enum { LIT, NAME, ARG, DONE } st = LIT; int skip = 0; size_t namelen = 0, arglen = 0, argstart = 0; char name0 = 0, arg0 = 0; size_t namestart = 0;
+  el = 0; exp_calls = 0; fits_ds = 1;
+  for (size_t i = 0; i < FLEN; i++) {
+    if (st == DONE) continue;
+    char c = f[i];
+    if (skip) { skip = 0; continue; }
+    if (c == 0) { if (st == NAME || st == ARG) put("[ERROR: Closing data source tag ('}') not found.]"); st = DONE; continue; }
+    if (st == LIT) { if (c == '%' && f[i + 1] == '{') { st = NAME; skip = 1; namelen = 0; namestart = i + 2; arglen = 0; arg0 = 0; } else putc_(c); continue; }
+    if (c != '}') {
+      if (st == NAME) { if (c == ':') { st = ARG; argstart = i + 1; } else { if (namelen == 0) name0 = c; namelen++; } }
+      else { if (arglen == 0) arg0 = c; arglen++; }
+      continue; }
+    /* '}' closes the tag */
+    int isknown = namelen == 1 && (name0 == 'a' || name0 == 'b' || name0 == 'f');
+    if (!isknown) { put("[ERROR: Data source '"); for (size_t k = 0; k < FLEN; k++) if (k < namelen) putc_(f[namestart + k]); put("' not found.]"); st = DONE; continue; }
+    if (exp_calls < 4) { exp_arg[exp_calls] = st == ARG ? f + argstart : ""; exp_arg_len[exp_calls] = st == ARG ? (int)arglen : 0; } exp_calls++;
+    if (name0 == 'f') { put("[ERROR: Data source 'f' failed with the following error message: 'E']"); if (DS < 1) fits_ds = 0; }
+    else { size_t L = name0 == 'a' ? La : Lb; if (L > DS) fits_ds = 0; for (size_t k = 0; k < 3; k++) if (k < L) putc_(k == 0 ? ((st == ARG && arglen > 0) ? arg0 : (name0 == 'a' ? 'A' : 'B')) : 'x'); }
+    st = LIT;
+  } }
 void harness(void){
   verif_ghost_init();
+#ifdef SHAPE
+  /* concrete tag structure, symbolic content: every lower-case placeholder letter x,y,z,p,q,r of the template is replaced by an
+     arbitrary byte other than % { } : NUL (fully symbolic formats make every string loop symbolic and the run intractable, probed) */
+  static const char *shapes[] = { "xy%{a}z", "%{a:p}%{b}", "%{b}%{a:p}q", "x%{f}y", "x%{w}y", "x%{a", "xyz", "", "%{a:p:q}r", "%{b:pq}x%{a}y%{b}", "%{", "}x{%", "%{a}%{a}%{a}", "x%{:p}" };
+  char fmt[FLEN + 2]; for (int z = 0; z < FLEN + 2; z++) fmt[z] = 0; { const char *t = shapes[SHAPE]; size_t k = 0; for (; t[k]; k++) { char c = t[k]; if (c == 'x' || c == 'y' || c == 'z' || c == 'p' || c == 'q' || c == 'r') { c = nondet_char(); __CPROVER_assume(c != '%' && c != '{' && c != '}' && c != ':' && c != 0); } fmt[k] = c; } fmt[k] = 0; }
+#else
   char fmt[FMT_MAX + 1]; for (int i = 0; i < FMT_MAX; i++) fmt[i] = nondet_char(); fmt[FMT_MAX] = 0;
+#endif
   La = nondet_size_t(); Lb = nondet_size_t(); __CPROVER_assume(La <= 3 && Lb <= 3);
   ds_bad_size = ds_calls = arg_bad = 0;
+  gi = nondet_size_t(); __CPROVER_assume(gi < BUF);
   spec(fmt);
   char msg[BUF + 2]; for (int i = 0; i < BUF + 2; i++) msg[i] = 0x55; msg[0] = 0;
   snoopy_message_generateFromFormat(msg, BUF, DS, fmt);
@@ -71,8 +85,7 @@ void harness(void){
   __CPROVER_assert(!ds_bad_size, "expansion: every data source gets a buffer of dataSourceMsgMaxLength+1 bytes (contributes at most dataSourceMsgMaxLength)");
   if (fits_ds && el <= BUF - 1) {
     __CPROVER_assert(!arg_bad && ds_calls == exp_calls, "expansion: each tag's data source is called once, left to right, with the text after the first ':' (or \"\") as argument");
-    size_t gi = nondet_size_t(); __CPROVER_assume(gi <= el);
-    __CPROVER_assert(ml == el && msg[gi] == E[gi], "expansion: whenever the full expansion fits the limits the message equals it exactly (ghost index)");
+    __CPROVER_assert(ml == el && (gi >= el || msg[gi] == wc), "expansion: whenever the full expansion fits the limits the message equals it exactly (ghost index)");
   }
   VERIF_CANARY();
 }
